@@ -619,6 +619,51 @@ func sliceObligations(g *Graph) (ok []string, bad []string) {
 	return
 }
 
+// soleCallerKey: the key of fn, or — when fn takes nothing but its receiver, is never used as a value, and every one
+// of its call sites is in one and the same function, on that function's own receiver — the key of that function (at
+// most three levels up).
+func soleCallerKey(p *Prog, fn *ssa.Function) string {
+	if os.Getenv("DBGSOLE") != "" {
+		fmt.Fprintln(os.Stderr, "sole", fn, fn.Signature.Recv() == nil, len(fn.Params), p.UsedAsValue(fn), len(p.CallSites(fn)))
+		for _, cs := range p.CallSites(fn) {
+			fmt.Fprintln(os.Stderr, "  cs", cs.Parent(), cs.Parent().Synthetic, cs.Common().Args[0])
+		}
+	}
+	for depth := 0; depth < 3; depth++ {
+		if fn.Signature.Recv() == nil || len(fn.Params) != 1 || p.UsedAsValue(fn) {
+			break
+		}
+		css := p.CallSites(fn)
+		if len(css) == 0 {
+			break
+		}
+		var caller *ssa.Function
+		ok := true
+		for _, cs := range css {
+			c := cs.Parent()
+			if caller != nil && c != caller || cs.Common().StaticCallee() != fn || len(c.Params) == 0 || c.Signature.Recv() == nil {
+				ok = false
+				break
+			}
+			caller = c
+			// the receiver handed over is the caller's own receiver (or the part of it embedded by value)
+			a := cs.Common().Args[0]
+			if fa, isFA := a.(*ssa.FieldAddr); isFA && promotedThrough(fa.X.Type(), fa.Field) {
+				a = fa.X
+			}
+			if a != ssa.Value(c.Params[0]) {
+				ok = false
+				break
+			}
+		}
+		if !ok || caller == nil || caller == fn {
+			break
+		}
+		fn = caller
+	}
+	return p.FuncKey(fn)
+}
+
 // checkLexPartition: S1 who-writes facts.
 func checkLexPartition(p *Prog, l *Ledger) {
 	rule := "C09/S1-partition"
@@ -635,7 +680,8 @@ func checkLexPartition(p *Prog, l *Ledger) {
 			}
 			tn, f := structKey(fa.X.Type(), fa.Field)
 			if tn == "lexer.Scanner" {
-				writers[f] = append(writers[f], p.FuncKey(fn)+":"+strings.ReplaceAll(recvFieldExpr(fn, st.Val), "$.", "s."))
+				// a setter whose only callers are one scanner method writes on behalf of that method
+				writers[f] = append(writers[f], soleCallerKey(p, fn)+":"+strings.ReplaceAll(recvFieldExpr(fn, st.Val), "$.", "s."))
 			}
 		})
 	}
@@ -772,6 +818,20 @@ func checkScanTokensLoop(p *Prog, l *Ledger) {
 	}
 	m := NewInterpModel(p, "ScanTokens")
 	m.MainMode = true
+	// the calls the automaton below speaks about stay calls; any other helper of the package is looked into
+	m.InlinePkg = "lexer"
+	m.InlineStop = map[string]bool{}
+	for _, f := range p.ModuleFuncs() {
+		if fnPkgName(f) != "lexer" {
+			continue
+		}
+		k := p.FuncKey(f)
+		for _, suf := range []string{".isAtEnd", ".scanToken", ".addToken", ".AddToken"} {
+			if strings.HasSuffix(k, suf) {
+				m.InlineStop[fnName(f)] = true
+			}
+		}
+	}
 	m.Explore(fn, []AV{Sym("s")}, nil)
 	eofTok, _ := p.tokenConst("EOF")
 	// three independent facts are tracked along every path: is start == current (set by `start = current`, destroyed by
